@@ -32,7 +32,8 @@ func specExpands(collapsed, name string) bool { return collapsed == name }
 //@ predicate listsVersion(cfg *telemetry.UploadConfig, p string, v string): exists i int, j int :: 0 <= i && i < len(cfg.Programs) && 0 <= j && j < len(cfg.Programs[i].Versions) && cfg.Programs[i].Name == p && cfg.Programs[i].Versions[j] == v
 //@ predicate listsCounter(cfg *telemetry.UploadConfig, p string, c string): exists i int, j int :: 0 <= i && i < len(cfg.Programs) && 0 <= j && j < len(cfg.Programs[i].Counters) && cfg.Programs[i].Name == p && specExpands(cfg.Programs[i].Counters[j].Name, c)
 //@ predicate listsStack(cfg *telemetry.UploadConfig, p string, s string): exists i int, j int :: 0 <= i && i < len(cfg.Programs) && 0 <= j && j < len(cfg.Programs[i].Stacks) && cfg.Programs[i].Name == p && cfg.Programs[i].Stacks[j].Name == s
-//@ predicate rateListed(cfg *telemetry.UploadConfig, p string, n string, r float64): (exists i int, j int :: 0 <= i && i < len(cfg.Programs) && 0 <= j && j < len(cfg.Programs[i].Counters) && cfg.Programs[i].Name == p && specExpands(cfg.Programs[i].Counters[j].Name, n) && cfg.Programs[i].Counters[j].Rate == r) || (exists i int, j int :: 0 <= i && i < len(cfg.Programs) && 0 <= j && j < len(cfg.Programs[i].Stacks) && cfg.Programs[i].Name == p && cfg.Programs[i].Stacks[j].Name == n && cfg.Programs[i].Stacks[j].Rate == r)
+//@ predicate counterRateListed(cfg *telemetry.UploadConfig, p string, n string, r float64): exists i int, j int :: 0 <= i && i < len(cfg.Programs) && 0 <= j && j < len(cfg.Programs[i].Counters) && cfg.Programs[i].Name == p && specExpands(cfg.Programs[i].Counters[j].Name, n) && cfg.Programs[i].Counters[j].Rate == r
+//@ predicate stackRateListed(cfg *telemetry.UploadConfig, p string, n string, r float64): exists i int, j int :: 0 <= i && i < len(cfg.Programs) && 0 <= j && j < len(cfg.Programs[i].Stacks) && cfg.Programs[i].Name == p && cfg.Programs[i].Stacks[j].Name == n && cfg.Programs[i].Stacks[j].Rate == r
 
 // ---------------------------------------------------------------------------
 // C11: the approval vocabulary shared by the uploader, the upload server and
@@ -72,11 +73,11 @@ func SpecStackName(k string) string { return k }
 //@   requires forall i int :: 0 <= i && i < len(cfg.Programs) ==> cfg.Programs[i] != nil
 //@   ensures result != nil && fresh(result)
 //@   ensures result.UploadConfig == cfg
-//@   loop 1: invariant ucfg.UploadConfig == cfg && ucfg.program != nil && ucfg.pgversion != nil && ucfg.pgcounter != nil && ucfg.pgcounterprefix != nil && ucfg.pgstack != nil && ucfg.rate != nil
+//@   loop 1: invariant ucfg.UploadConfig == cfg && ucfg.program != nil && ucfg.pgversion != nil && ucfg.pgcounter != nil && ucfg.pgcounterprefix != nil && ucfg.pgstack != nil && ucfg.rate != nil && ucfg.stackrate != nil
 //@   loop 2: invariant ucfg.pgversion != nil && p != nil
 //@   loop 3: invariant ucfg.pgcounter != nil && ucfg.pgcounterprefix != nil && ucfg.rate != nil && p != nil
 //@   loop 4: invariant ucfg.pgcounter != nil && ucfg.rate != nil && p != nil
-//@   loop 5: invariant ucfg.pgstack != nil && ucfg.rate != nil && p != nil
+//@   loop 5: invariant ucfg.pgstack != nil && ucfg.rate != nil && ucfg.stackrate != nil && p != nil
 // The four tables are built independently of each other; each group of
 // invariants is proved in its own pass over the function (proof views).
 //@   view simple
@@ -107,9 +108,10 @@ func SpecStackName(k string) string { return k }
 // in (a stack may have the name of a counter of the same program).
 //@   loop 5: invariant forall q string, n string :: same(ucfg.rate[pgkey{q, n}], loopentry(ucfg.rate[pgkey{q, n}]))
 //@   view all
-// Still assumed: the rate table (last writer wins) holds the rate of one of the
-// entries that list the name.
-//@   assumes forall p string, n string :: result.pgcounter[pgkey{p, n}] || result.pgstack[pgkey{p, n}] ==> rateListed(cfg, p, n, result.rate[pgkey{p, n}])
+// Still assumed: each rate table (last writer wins) holds the rate of one of the
+// entries of its own kind that list the name.
+//@   assumes forall p string, n string :: result.pgcounter[pgkey{p, n}] ==> counterRateListed(cfg, p, n, result.rate[pgkey{p, n}])
+//@   assumes forall p string, n string :: result.pgstack[pgkey{p, n}] ==> stackRateListed(cfg, p, n, result.stackrate[pgkey{p, n}])
 //@   modifies nothing
 
 //@ contract (*Config).HasProgram
@@ -138,4 +140,7 @@ func SpecStackName(k string) string { return k }
 //@   modifies nothing
 //@ contract (*Config).Rate
 //@   ensures same(result, r.rate[pgkey{program, name}])
+//@   modifies nothing
+//@ contract (*Config).StackRate
+//@   ensures same(result, r.stackrate[pgkey{program, name}])
 //@   modifies nothing
